@@ -157,6 +157,7 @@ def gen_docs(rng, space, n, first=True):
             docs.extend(G.numeric_sweep())
             docs.extend(G.captioned_table_sweep())      # caption richness x trigger of every table pass
             docs.extend(G.refname_sweep())              # footnote name x spelling, definition / empty use, both orders
+            docs.extend(G.refgroup_sweep())             # one footnote name x group of every occurrence (absent / g / h / empty), all orders
     elif space == 3:
         while len(docs) < n:
             docs.append(G.deep(rng))
@@ -694,9 +695,11 @@ def check(run):
                 "of 0..16 inline nodes x the trigger of every table pass), 4%% one footnote name in 2..6 spellings (blanks around / inside "
                 "the quoted value, quoting style, case, Unicode look-alikes; definition / empty use / empty pair, any order), plus the "
                 "exhaustive sweeps attribute read by the source x number spelling, table trigger x caption, footnote name x spelling x "
-                "definition/use x order; space 2: documents of a recursive grammar of ordinary content "
+                "definition/use x order, footnote group (absent / first / second / empty, drawn per <ref> independently of the name) x "
+                "definition / empty use / second definition x order; space 2: documents of a recursive grammar of ordinary content "
                 "(unique words, or one repeated fragment) incl. link-only section bodies, multi-block table cells, preformatted blocks, "
-                "named footnotes whose name is spelled differently at definition and use, footnotes linking one article several times; "
+                "named footnotes whose name is spelled differently at definition and use and whose group "
+                "attribute varies per <ref>, footnotes linking one article several times; "
                 "space 3: forbidden-nesting pairs / row-copying tables / adversarial documents with one fragment wrapped into 41..%d "
                 "nested tags (passes fail half-way with RecursionError; the tree is checked after the failed pass on the direct and on "
                 "the catch-all path). distinct = distinct wikitext; non-trivial = at least one cleaner pass changed the tree"
